@@ -448,7 +448,12 @@ def rule_V_TRYRESET(ctx, repo):
 
             def probes(st):
                 return any(isinstance(x, ast.Attribute) and isinstance(x.value, ast.Name) and x.value.id == obj and isinstance(x.ctx, ast.Load) for x in ast.walk(st))
-            idx = [i for i, st in enumerate(t.body) if probes(st)]
+            idx = []
+            for i, st in enumerate(t.body):
+                if probes(st):
+                    idx.append(i)
+                if any(isinstance(x, ast.Name) and x.id == obj and isinstance(x.ctx, ast.Store) for x in ast.walk(st)):
+                    break       # the name now holds another object (func = func.func): later reads do not probe the callable that was passed
             if len(idx) < 2:
                 continue
             n += 1
@@ -1315,6 +1320,116 @@ def rule_V_PARTIALSHAPE(ctx, repo):
                      % (fname, obj, what), '%s:%d' % (m.rel, (soft or unwraps)[0].lineno))
     if n < 1:
         raise AnalysisError('V-TRYRESET (partial shape): no function of klepto/_inspect.py unwraps `.func` (signature / validate, or a helper they share, is an anchor)')
+
+
+def rule_V_CALLFALLBACK(ctx, repo):
+    """V-TRYRESET (a partial is not a "callable instance").  signature() and validate() replace an object that has a `__call__` and no `__name__` by its
+    `__call__` method.  A functools.partial has exactly that shape, and partial.__call__ is (self, *args, **kwargs) - it accepts everything.  The replacement is
+    therefore reached only for an object that was not recognised as a partial (in the AttributeError handler of the probe), or under a test that excludes
+    partials (`not identified`, `not hasattr(x, 'func')`, `not isinstance(x, partial)`, or `__call__` being a python function / method).  After
+    `func = func.func` the name may hold an inner partial (a partial of a partial that carries attributes is not flattened)."""
+    m = repo.mod('_inspect')
+    n = 0
+
+    def excludes_partial(tests, helpers):
+        for t in tests:
+            src = unparse(t)
+            if 'partial' in src or "'func'" in src or '"func"' in src or 'identified' in src:
+                return True
+            for c in ast.walk(t):
+                if isinstance(c, ast.Call) and isinstance(c.func, ast.Name) and c.func.id in helpers:
+                    hs = unparse(helpers[c.func.id].node)
+                    if 'partial' in hs or "'func'" in hs or ('ismethod' in hs and '__call__' in hs):
+                        return True
+        return False
+    for fname in ('signature', 'validate'):
+        fi = m.functions.get(fname)
+        if fi is None:
+            raise AnalysisError('anchor vanished: klepto/_inspect.py::%s' % fname)
+        fn = fi.node
+        obj = fn.args.args[0].arg
+        parent = {}
+        for x in ast.walk(fn):
+            for c in ast.iter_child_nodes(x):
+                parent[c] = x
+        for x in ast.walk(fn):
+            if not (isinstance(x, ast.Assign) and isinstance(x.value, ast.Attribute) and x.value.attr == '__call__' and isinstance(x.value.value, ast.Name)
+                    and x.value.value.id == obj and any(isinstance(t, ast.Name) and t.id == obj for t in x.targets)):
+                continue
+            n += 1
+            tests, in_handler = [], False
+            cur = x
+            while cur in parent and cur is not fn:
+                p_ = parent[cur]
+                if isinstance(p_, ast.If) and cur is not p_.test:
+                    tests.append(p_.test)
+                if isinstance(p_, ast.ExceptHandler):
+                    # the handler of the probing try: `.func` could not be read, so the name still holds the object that was passed
+                    tr = parent.get(p_)
+                    if isinstance(tr, ast.Try) and any(isinstance(y, ast.Attribute) and y.attr == 'func' and isinstance(y.value, ast.Name) and y.value.id == obj
+                                                       for st in tr.body for y in ast.walk(st)):
+                        in_handler = True
+                cur = p_
+            ok = in_handler or excludes_partial(tests, m.functions)
+            ctx.ob('V-TRYRESET', '%s:%d `%s = %s.__call__` cannot take a partial for a callable instance' % (fname, x.lineno, obj, obj), ok)
+            if not ok:
+                ctx.fail('V-TRYRESET', fi.qual, 'callable-instance fallback reaches partials',
+                         '%s replaces `%s` by `%s.__call__` on a path where it can hold a functools.partial (after `%s = %s.func` the inner callable of a partial may '
+                         'itself be a partial: one that carries attributes is not flattened).  A partial has a __call__ and no __name__, and partial.__call__ is '
+                         '(self, *args, **kwargs): every argument list is then accepted and the names values are filed under are lost' % (fname, obj, obj, obj, obj),
+                         '%s:%d' % (m.rel, x.lineno))
+    if n < 2:
+        ctx.note('V-TRYRESET (callable-instance fallback): %d `func = func.__call__` replacements found in signature / validate (two on the validated tree)' % n)
+
+
+STR_PREDICATES = ('isidentifier', 'isalnum', 'isalpha', 'isascii', 'isdigit', 'isnumeric', 'isdecimal', 'islower', 'isupper', 'isprintable', 'istitle', 'isspace',
+                  'iskeyword', 'issoftkeyword', 'fullmatch', 'match', 'encode')
+
+
+def rule_V_NAMESHAPE(ctx, repo):
+    """V-NAMES (keyword names are opaque).  Python binds f(**{'content-type': 1}) to a function with **kwds without looking at the spelling of the name: only
+    membership in the parameter list matters.  validate() therefore compares names (in / not in / ==) and never judges their spelling: a predicate on the text
+    of a name (isidentifier, iskeyword, a regular expression, an encoding) rejects calls the interpreter accepts."""
+    m = repo.mod('_inspect')
+    n = 0
+    for fname in ('validate', 'isvalid'):
+        fi = m.functions.get(fname)
+        if fi is None:
+            raise AnalysisError('anchor vanished: klepto/_inspect.py::%s' % fname)
+        hits = [x for x in ast.walk(fi.node) if isinstance(x, ast.Call) and isinstance(x.func, ast.Attribute) and x.func.attr in STR_PREDICATES]
+        n += 1
+        ctx.ob('V-NAMES', '%s judges no keyword name by its spelling' % fname, not hits)
+        for x in hits:
+            ctx.fail('V-NAMES', fi.qual, 'names tested with %s' % x.func.attr,
+                     '%s applies `%s` to the names it validates: the interpreter binds any string as a keyword of a **kwds function (f(**{"content-type": 1}) is a '
+                     'legal call), so a call that gets past argument binding is reported invalid' % (fname, unparse(x)[:50]), '%s:%d' % (m.rel, x.lineno))
+
+
+def rule_G_FUNCIDENT(ctx, repo):
+    """G-SELF (the key does not depend on which function *object* is asked).  _keygen uses the callable for its signature and its name.  A comparison of the
+    callable (is / == / in) with something found at run time - the attribute bound on the instance, its __func__ or __wrapped__ - holds for the function
+    object that was decorated and fails for its unpickled copy (a new object, while the class still carries the original): the copy stops recognising
+    `self`, keys its calls differently (or cannot key them at all), and misses what the original stored."""
+    m = repo.mod('_inspect')
+    fi = m.functions.get('_keygen')
+    if fi is None:
+        raise AnalysisError('anchor vanished: klepto/_inspect.py::_keygen')
+    fn = fi.node
+    obj = fn.args.args[0].arg
+    aliases = set([obj])
+    hits = []
+    for x in ast.walk(fn):
+        if isinstance(x, ast.Compare):
+            operands = [x.left] + list(x.comparators)
+            if any(isinstance(o, ast.Name) and o.id in aliases for o in operands) and \
+                    not all(isinstance(o, ast.Constant) or (isinstance(o, ast.Name) and o.id in aliases) for o in operands):
+                hits.append(x)
+    ctx.ob('G-SELF', '_keygen compares the callable with nothing found at run time', not hits)
+    for x in hits:
+        ctx.fail('G-SELF', fi.qual, 'callable compared by identity: %s' % unparse(x)[:50],
+                 '_keygen tests `%s`: the outcome depends on which function object is being keyed.  A decorated function restored from a pickle is a new object, while '
+                 'what is bound on the instance / class is still the original, so the test passes for the original and fails for the copy - the copy no longer treats '
+                 'the first argument as the instance and computes other keys (or none) for the calls the original stored' % unparse(x)[:70], '%s:%d' % (m.rel, x.lineno))
 
 
 def rule_V_DOUBLESTAR(ctx, repo):
